@@ -375,6 +375,38 @@ static vector<pair<string, function<void()>>> StressCases() {
       vfs::active = false;
     }});
   }
+  // -d explain: explanations are formatted into a fixed buffer; names of every length around its size, in the three places
+  // where text from a file ends up in one (a depfile's target, a missing output, an input newer than the output)
+  for (size_t len : {size_t(1), size_t(500), size_t(1000), size_t(1023), size_t(1024), size_t(1025), size_t(1100), size_t(3000), size_t(70000)}) {
+    v.push_back({"-d explain with a name of " + to_string(len) + " characters", [len]() {
+      string name(len, 'n');
+      State state;
+      MemReader r;
+      r.files["build.ninja"] = "rule cc\n  command = cc\n  depfile = a.d\nbuild a: cc a.c\nbuild " + name + ": cc " + name + ".c\nbuild c: cc " + name + ".in\n";
+      ManifestParser p(&state, &r);
+      string err;
+      if (!p.Load("build.ninja", &err)) return;
+      MemDisk disk;
+      disk.files["a.c"] = "";
+      disk.files["a"] = "";
+      disk.files["a.d"] = name + "x: x.h\n";      // names another target: "expected depfile ... to mention 'a', got '<name>x'"
+      disk.files[name + ".c"] = "";                // <name> itself does not exist: "output <name> doesn't exist"
+      disk.files[name + ".in"] = "";
+      disk.files["c"] = "";
+      Explanations expl;
+      DependencyScan scan(&state, nullptr, nullptr, &disk, nullptr, &expl);
+      for (const char* t : {"a", "c"})
+        if (Node* n = state.LookupNode(t)) { err.clear(); scan.RecomputeDirty(n, nullptr, &err); }
+      if (Node* n = state.LookupNode(name)) { err.clear(); scan.RecomputeDirty(n, nullptr, &err); }
+      size_t total = 0;
+      for (Edge* e : state.edges_) {
+        vector<string> out;
+        for (Node* o : e->outputs_) expl.LookupAndAppend(o, &out);
+        for (auto& x : out) total += x.size() + strlen(x.c_str());
+      }
+      if (total == (size_t)-1) abort();
+    }});
+  }
   v.push_back({"rule variable cycle", []() {
     State state;
     MemReader r;
